@@ -14,6 +14,7 @@ import (
 // api.*: the exported helpers that the other families reach only indirectly, called directly.
 //
 //	api.hdrfrombytes <hex>          cose.HeadersFromBytes, answered with the canonical re-encoding of the map
+//	api.taglabel <hex>              a map with a tagged label is refused by every map decoder
 //	api.hash <alg> <hex>            key.Alg(alg).HashFunc() + key.ComputeHash
 //	api.crvalg <crv>                key.CrvAlg
 //	api.emptyorhas <op> <ops…>      key.Ops.EmptyOrHas
@@ -52,6 +53,17 @@ func execAPI(op string, a []string) string {
 			return "NIL-HEADERS-BYTESIFY-NOT-CBOR " + hx(nb)
 		}
 		return "ok " + hx(b)
+	case "api.taglabel":
+		// api.taglabel <hex>: a label map one of whose labels is wrapped in a tag the decoder has no meaning for: a tagged
+		// label is neither an integer nor a text string — every map decoder refuses it (C08 specification op)
+		data := unhx(a[0])
+		var cm key.CoseMap
+		var kk key.Key
+		_, e1 := cose.HeadersFromBytes(data)
+		if e1 == nil || cm.UnmarshalCBOR(data) == nil || kk.UnmarshalCBOR(data) == nil {
+			return "accepted"
+		}
+		return "rejected"
 	case "api.hash":
 		alg, _ := strconv.Atoi(a[0])
 		hf := key.Alg(alg).HashFunc()
@@ -93,6 +105,16 @@ func execAPI(op string, a []string) string {
 func genAPI(r *rand.Rand, n int) []string {
 	var out []string
 	for i := 0; i < n; i++ {
+		if i%6 == 0 && (i/6)%3 == 1 { // a tagged label
+			tag := []uint64{100, 4, 1000, 21, 65535, 32}[(i/18)%6]
+			lab := []*cnode{{mt: 0, n: 1}, {mt: 1, n: 6}, {mt: 3, b: []byte("x")}, {mt: 0, n: 4}}[(i/18)%4]
+			m := &cnode{mt: 5, kids: []*cnode{{mt: 6, n: tag, kids: []*cnode{lab}}, {mt: 1, n: 7}}}
+			if (i/18)%2 == 1 { // next to an ordinary entry
+				m.kids = append([]*cnode{{mt: 0, n: 3}, {mt: 0, n: 0}}, m.kids...)
+			}
+			out = append(out, "api.taglabel "+hx(m.emit(nil, r, nil)))
+			continue
+		}
 		switch i % 6 {
 		case 0: // a header bucket: canonical, non-canonical, 0 / 15 / 16 / 23 / 24 entries, not a map, empty, nil
 			m := &cnode{mt: 5}
